@@ -1,11 +1,948 @@
-//! C32 — not built yet (see DESIGN.md §5 C32).
+//! C32 — views and CTEs behave as their defining query (DESIGN §5 C32).
+//!
+//! Part 1 (equivalence): definitions D × outer queries O × small databases; the same outer query is
+//! run three ways on vibesql — (a) against `CREATE VIEW vw AS D`, (b) `WITH cv AS (D) O[cv]`,
+//! (c) `O[(D) AS cv]` — and (a), (b) must return the bag (c) returns.
+//! Part 2 (freshness): for a view over base tables, after every step of every DML history of bounded
+//! length, `SELECT * FROM vw` must equal the defining query executed directly on the current tables.
 
-pub fn run(_tier: &str) -> i32 {
-    eprintln!("MACHINERY-ERROR C32 is not built yet");
-    2
+use std::collections::HashSet;
+use std::time::Instant;
+
+use serde_json::{json, Value};
+use vibesql_storage::Database;
+
+use crate::dbs::{self, Db, DbSpace, TableSpace, V};
+use crate::q::*;
+use vcore::exec::{self, Out};
+use vcore::report::Report;
+use vcore::val;
+
+#[derive(Clone, Copy, PartialEq, Debug)]
+enum Ty {
+    I,
+    S,
 }
 
-pub fn replay(_case: &serde_json::Value) -> i32 {
-    eprintln!("MACHINERY-ERROR C32 is not built yet");
-    2
+struct Def {
+    name: &'static str,
+    /// the defining query
+    q: Q,
+    /// explicit column list (`CREATE VIEW vw (x, y) AS …`, `WITH cv (x, y) AS …`)
+    col_list: Option<Vec<&'static str>>,
+    /// visible column names and types of the view
+    cols: Vec<(&'static str, Ty)>,
+    /// mechanism classes for the coverage table
+    class: &'static str,
+}
+
+fn defs() -> Vec<Def> {
+    let a = || col("a");
+    let b = || col("b");
+    let ii = |x: &'static str, y: &'static str| vec![(x, Ty::I), (y, Ty::I)];
+    vec![
+        Def { name: "proj", q: sel(vec![item(a()), item(b())], table("t")).q(), col_list: None, cols: ii("a", "b"), class: "projection" },
+        Def { name: "star", q: sel(vec![Item::Star], table("u")).q(), col_list: None, cols: ii("a", "d"), class: "projection" },
+        Def { name: "filter", q: sel(vec![item(a()), item(b())], table("t")).wher(bin(">", b(), int(0))).q(), col_list: None, cols: ii("a", "b"), class: "filter" },
+        Def { name: "empty", q: sel(vec![item(a()), item(b())], table("t")).wher(bin("=", int(0), int(1))).q(), col_list: None, cols: ii("a", "b"), class: "empty result" },
+        Def { name: "alias", q: sel(vec![item_as(a(), "x"), item_as(b(), "y")], table("t")).q(), col_list: None, cols: ii("x", "y"), class: "projection" },
+        Def { name: "collist", q: sel(vec![item(a()), item(b())], table("t")).q(), col_list: Some(vec!["x", "y"]), cols: ii("x", "y"), class: "explicit column list" },
+        Def { name: "swapnames", q: sel(vec![item_as(b(), "a"), item_as(a(), "b")], table("t")).q(), col_list: None, cols: ii("a", "b"), class: "projection" },
+        Def { name: "expr", q: sel(vec![item_as(bin("+", a(), b()), "s"), item(a())], table("t")).q(), col_list: None, cols: ii("s", "a"), class: "expression columns" },
+        Def { name: "const", q: sel(vec![item_as(int(1), "one"), item(a())], table("t")).q(), col_list: None, cols: ii("one", "a"), class: "constant column" },
+        Def { name: "nullcol", q: sel(vec![item(a()), item_as(E::Null, "z")], table("t")).q(), col_list: None, cols: ii("a", "z"), class: "constant column" },
+        Def { name: "group", q: sel(vec![item(a()), item_as(count_star(), "n")], table("t")).group(vec![a()]).q(), col_list: None, cols: ii("a", "n"), class: "aggregate" },
+        Def { name: "agg", q: sel(vec![item_as(count_star(), "n"), item_as(agg("SUM", b()), "s")], table("t")).q(), col_list: None, cols: ii("n", "s"), class: "aggregate" },
+        Def { name: "aggmin", q: sel(vec![item_as(agg("MIN", a()), "m"), item_as(agg("COUNT", b()), "n")], table("t")).wher(bin(">", b(), int(0))).q(), col_list: None, cols: ii("m", "n"), class: "aggregate" },
+        Def { name: "distinct", q: sel(vec![item(a())], table("t")).dist(true).q(), col_list: None, cols: vec![("a", Ty::I)], class: "distinct" },
+        Def {
+            name: "join",
+            q: sel(vec![item_as(col("t.a"), "a"), item_as(col("u.d"), "d")], join("JOIN", table("t"), table("u"), Some(bin("=", col("t.a"), col("u.a"))))).q(),
+            col_list: None,
+            cols: ii("a", "d"),
+            class: "join",
+        },
+        Def {
+            name: "leftjoin",
+            q: sel(vec![item_as(col("t.b"), "b"), item_as(col("u.d"), "d")], join("LEFT JOIN", table("t"), table("u"), Some(bin("=", col("t.a"), col("u.a"))))).q(),
+            col_list: None,
+            cols: ii("b", "d"),
+            class: "join",
+        },
+        Def { name: "strfirst", q: sel(vec![item(col("c")), item(a())], table("t")).q(), col_list: None, cols: vec![("c", Ty::S), ("a", Ty::I)], class: "projection" },
+        Def {
+            name: "union",
+            q: Q::body(Body::SetOp(Box::new(Body::Select(sel(vec![item(a())], table("t")))), SetOp::Union, false, sel(vec![item(a())], table("u")))),
+            col_list: None,
+            cols: vec![("a", Ty::I)],
+            class: "set operation",
+        },
+        Def {
+            name: "subq",
+            q: sel(vec![item(a()), item(b())], table("t")).wher(E::InSub(Box::new(a()), false, Box::new(sel(vec![item(col("u.a"))], table("u")).q()))).q(),
+            col_list: None,
+            cols: ii("a", "b"),
+            class: "filter",
+        },
+        Def {
+            name: "case",
+            q: sel(vec![item_as(E::Case(vec![(E::IsNull(Box::new(a()), false), int(0 - 1))], Some(Box::new(a()))), "k"), item(b())], table("t")).q(),
+            col_list: None,
+            cols: ii("k", "b"),
+            class: "expression columns",
+        },
+    ]
+}
+
+/// Outer-query shapes over a relation called `rel` with the given columns.
+fn outers(rel: &str, cols: &[(&'static str, Ty)], thorough: bool) -> Vec<(&'static str, Q)> {
+    let k1 = cols[0].0;
+    let t1 = cols[0].1;
+    let c1 = || col(k1);
+    let lit = |t: Ty| if t == Ty::I { int(1) } else { st("a") };
+    let two = cols.len() > 1;
+    let k2 = if two { cols[1].0 } else { cols[0].0 };
+    let t2 = if two { cols[1].1 } else { cols[0].1 };
+    let c2 = || col(k2);
+    let r = || table(rel);
+    let qual = |c: &str| col(&format!("{}.{}", rel, c));
+    let isnull = |e: E, neg: bool| E::IsNull(Box::new(e), neg);
+    let mut v: Vec<(&'static str, Q)> = vec![];
+    v.push(("star", sel(vec![Item::Star], r()).q()));
+    v.push(("col", sel(vec![item(c1())], r()).q()));
+    if two {
+        v.push(("cols_swapped", sel(vec![item(c2()), item(c1())], r()).q()));
+    }
+    for (n, op) in [("where_eq", "="), ("where_ne", "<>"), ("where_lt", "<"), ("where_le", "<="), ("where_gt", ">"), ("where_ge", ">=")] {
+        v.push((n, sel(vec![Item::Star], r()).wher(bin(op, c1(), lit(t1))).q()));
+    }
+    v.push(("where_is_null", sel(vec![Item::Star], r()).wher(isnull(c1(), false)).q()));
+    v.push(("where_and", sel(vec![Item::Star], r()).wher(bin("AND", isnull(c2(), true), bin("=", c1(), lit(t1)))).q()));
+    v.push(("where_or", sel(vec![Item::Star], r()).wher(bin("OR", isnull(c2(), false), bin("<>", c1(), lit(t1)))).q()));
+    v.push(("where_in", sel(vec![Item::Star], r()).wher(E::InList(Box::new(c1()), false, vec![lit(t1), E::Null])).q()));
+    v.push(("where_qualified", sel(vec![item(qual(k1))], r()).wher(bin("=", qual(k1), lit(t1))).q()));
+    v.push(("alias", sel(vec![item(col(&format!("w.{}", k1)))], table_as(rel, "w")).wher(bin("=", col(&format!("w.{}", k1)), lit(t1))).q()));
+    v.push(("count", sel(vec![item(count_star())], r()).q()));
+    let mut aggs = vec![item(agg("COUNT", c1())), item(agg("MIN", c2())), item(agg("MAX", c1()))];
+    if t1 == Ty::I {
+        aggs.push(item(agg("SUM", c1())));
+    }
+    v.push(("aggregates", sel(aggs, r()).q()));
+    v.push(("count_where", sel(vec![item(count_star())], r()).wher(bin("=", c1(), lit(t1))).q()));
+    v.push(("group_by", sel(vec![item(c1()), item(count_star())], r()).group(vec![c1()]).q()));
+    v.push(("distinct", sel(vec![item(c1())], r()).dist(true).q()));
+    v.push(("order_limit", sel(vec![item(c1())], r()).q().order(vec![(Key::Expr(c1()), false)]).lim(Some(1), None)));
+    v.push(("order_desc_limit", sel(vec![item(c1())], r()).q().order(vec![(Key::Expr(c1()), true)]).lim(Some(2), None)));
+    if t1 == Ty::I {
+        v.push(("expr_where", sel(vec![item(bin("+", c1(), int(1)))], r()).wher(bin(">", c1(), int(0))).q()));
+        v.push(("join_table", sel(vec![item(qual(k1)), item(col("u.d"))], join("JOIN", r(), table("u"), Some(bin("=", qual(k1), col("u.a"))))).q()));
+        v.push(("table_left_join", sel(vec![item(col("u.a")), item(qual(k1))], join("LEFT JOIN", table("u"), r(), Some(bin("=", qual(k1), col("u.a"))))).q()));
+        v.push(("in_subquery", sel(vec![item(col("u.a"))], table("u")).wher(E::InSub(Box::new(col("u.a")), false, Box::new(sel(vec![item(qual(k1))], r()).q()))).q()));
+        v.push((
+            "exists_subquery",
+            sel(vec![item(col("u.a"))], table("u")).wher(E::Exists(false, Box::new(sel(vec![item(int(1))], r()).wher(bin("=", qual(k1), col("u.a"))).q()))).q(),
+        ));
+        v.push(("union_all", Q::body(Body::SetOp(Box::new(Body::Select(sel(vec![item(c1())], r()))), SetOp::Union, true, sel(vec![item(col("a"))], table("u"))))));
+    }
+    v.push(("scalar_subquery", sel(vec![item(col("u.a")), item(E::Sub(Box::new(sel(vec![item(count_star())], r()).q())))], table("u")).q()));
+    v.push((
+        "self_join",
+        sel(vec![item(col(&format!("x.{}", k1))), item(col(&format!("y.{}", k1)))], join("JOIN", table_as(rel, "x"), table_as(rel, "y"), Some(bin("=", col(&format!("x.{}", k1)), col(&format!("y.{}", k1)))))).q(),
+    ));
+    if two && t1 == t2 {
+        v.push(("where_col_col", sel(vec![Item::Star], r()).wher(bin("=", c1(), c2())).q()));
+    }
+    if thorough {
+        v.push(("where_not", sel(vec![Item::Star], r()).wher(not(bin("=", c1(), lit(t1)))).q()));
+        v.push(("where_between", sel(vec![Item::Star], r()).wher(E::Between(Box::new(c1()), false, Box::new(lit(t1)), Box::new(lit(t1)))).q()));
+        v.push(("having", sel(vec![item(c1()), item(count_star())], r()).group(vec![c1()]).hav(Some(bin(">", count_star(), int(1)))).q()));
+        v.push(("order_all", sel(vec![item(c1())], r()).q().order(vec![(Key::Pos(1), true)])));
+        v.push(("nested_derived", sel(vec![item(col(&format!("g.{}", k1)))], From::Derived(Box::new(sel(vec![item(c1())], r()).wher(isnull(c1(), true)).q()), "g".into())).q()));
+    }
+    v
+}
+
+const VIEW: &str = "vw";
+const CTE: &str = "cv";
+
+struct Triple {
+    def: usize,
+    outer: &'static str,
+    /// O[vw]
+    a: String,
+    /// WITH cv AS (D) O[cv]
+    b: String,
+    /// O[(D) AS cv]
+    c: String,
+    c_lite: String,
+    stmts: [Option<vibesql_ast::SelectStmt>; 3],
+}
+
+fn create_view_sql(d: &Def) -> String {
+    let cols = match &d.col_list {
+        Some(c) => format!(" ({})", c.join(", ")),
+        None => String::new(),
+    };
+    format!("CREATE VIEW {}{} AS {}", VIEW, cols, d.q.render(Dialect::Vibe))
+}
+
+/// D with the explicit column list folded into aliases (what the derived-table form needs).
+fn def_for_derived(d: &Def) -> Q {
+    match &d.col_list {
+        None => d.q.clone(),
+        Some(names) => {
+            let mut q = d.q.clone();
+            if let Body::Select(s) = &mut q.body {
+                for (it, n) in s.items.iter_mut().zip(names.iter()) {
+                    if let Item::Expr(e, _) = it {
+                        *it = Item::Expr(e.clone(), Some(n.to_string()));
+                    }
+                }
+            }
+            q
+        }
+    }
+}
+
+fn triples(ds: &[Def], thorough: bool) -> Vec<Triple> {
+    let mut out = vec![];
+    for (di, d) in ds.iter().enumerate() {
+        for (oname, o) in outers(VIEW, &d.cols, thorough) {
+            let a = o.render(Dialect::Vibe);
+            let ocv = o.subst_table(VIEW, CTE, &|alias| From::Table(CTE.to_string(), alias.cloned()));
+            let mut b = ocv.clone();
+            b.with = vec![Cte { name: CTE.to_string(), cols: d.col_list.as_ref().map(|c| c.iter().map(|x| x.to_string()).collect()), q: d.q.clone() }];
+            let dq = def_for_derived(d);
+            let c = o.subst_table(VIEW, CTE, &|alias| From::Derived(Box::new(dq.clone()), alias.cloned().unwrap_or_else(|| CTE.to_string())));
+            let texts = [a, b.render(Dialect::Vibe), c.render(Dialect::Vibe)];
+            let stmts = [0, 1, 2].map(|i| match exec::parse(&texts[i]) {
+                Ok(vibesql_ast::Statement::Select(s)) => Some(*s),
+                _ => None,
+            });
+            let [a, b, cc] = texts;
+            out.push(Triple { def: di, outer: oname, a, b, c: cc, c_lite: c.render(Dialect::Sqlite), stmts });
+        }
+    }
+    out
+}
+
+fn db_space(thorough: bool) -> DbSpace {
+    // insertion sequences matter (column metadata is derived from the first result row);
+    // c follows a so that a VARCHAR column varies without enlarging the menu
+    if thorough {
+        let mut menu = vec![];
+        for (a, c) in [(V::Null, V::Null), (V::I(0), V::S("a")), (V::I(1), V::S("b"))] {
+            for b in [V::Null, V::I(1)] {
+                menu.push(vec![a.clone(), b, c.clone()]);
+            }
+        }
+        DbSpace { t: TableSpace { menu, max_rows: 2, ordered: true }, u: TableSpace { menu: vec![vec![V::I(1), V::I(1)], vec![V::Null, V::I(1)]], max_rows: 1, ordered: false } }
+    } else {
+        let menu = vec![vec![V::Null, V::Null, V::Null], vec![V::I(0), V::I(1), V::S("a")], vec![V::I(1), V::Null, V::S("b")]];
+        DbSpace { t: TableSpace { menu, max_rows: 2, ordered: true }, u: TableSpace { menu: vec![vec![V::I(1), V::I(1)]], max_rows: 1, ordered: false } }
+    }
+}
+
+#[derive(Default)]
+struct Out1 {
+    cases: u64,
+    agree: u64,
+    nonempty: u64,
+    view_rejected: u64,
+    derived_err: u64,
+    all_err: u64,
+    outcomes: Vec<u64>,
+    bad: Vec<(usize, &'static str, String)>, // (triple idx, kind, what)
+    /// triples whose derived-table form vibesql rejects (triple idx, message)
+    derived_rejected: Vec<(usize, String)>,
+}
+
+fn bag_of(o: &Out) -> Option<Vec<Vec<val::NV>>> {
+    o.rows().map(|r| val::bag(r))
+}
+
+fn run_equiv_db(db: &Db, ds: &[Def], ts: &[Triple]) -> Out1 {
+    let base = dbs::vibe_db(db);
+    let mut o = Out1::default();
+    // one database (base + the view) per definition; the executor is reused for all its triples
+    let mut start = 0;
+    while start < ts.len() {
+        let def = ts[start].def;
+        let end = start + ts[start..].iter().take_while(|t| t.def == def).count();
+        let mut d = base.clone();
+        let r = exec::exec(&mut d, &create_view_sql(&ds[def]));
+        if !r.is_ok() {
+            o.view_rejected += (end - start) as u64;
+        } else {
+            run_equiv_def(&d, &ts[start..end], start, &mut o);
+        }
+        start = end;
+    }
+    o
+}
+
+fn run_equiv_def(d: &Database, ts: &[Triple], offset: usize, o: &mut Out1) {
+    let mut vibe = crate::oracle::Vibe::new(d);
+    for (k, t) in ts.iter().enumerate() {
+        let ti = offset + k;
+        let mut run = |i: usize| -> Out {
+            match &t.stmts[i] {
+                Some(s) => vibe.select(s),
+                None => Out::Err(exec::ErrClass::Parse, "parse error".into()),
+            }
+        };
+        let rc = run(2);
+        let ra = run(0);
+        let rb = run(1);
+        o.cases += 1;
+        let Some(bc) = bag_of(&rc) else {
+            if o.derived_rejected.len() < 400 && !o.derived_rejected.iter().any(|(i, _)| *i == ti) {
+                o.derived_rejected.push((ti, rc.brief()));
+            }
+            if ra.is_ok() || rb.is_ok() {
+                o.derived_err += 1;
+            } else {
+                o.all_err += 1;
+            }
+            continue;
+        };
+        o.outcomes.push(vcore::util::hash64(format!("{}:{:?}", ti, bc).as_bytes()));
+        if !bc.is_empty() {
+            o.nonempty += 1;
+        }
+        let mut ok = true;
+        for (form, r) in [("view", &ra), ("cte", &rb)] {
+            match bag_of(r) {
+                Some(b) if b == bc => {}
+                Some(b) => {
+                    ok = false;
+                    o.bad.push((ti, if form == "view" { "view_differs" } else { "cte_differs" }, format!("{} form returns {} but the derived-table form returns {}", form, val::fmt_bag(&b), val::fmt_bag(&bc))));
+                }
+                None => {
+                    ok = false;
+                    o.bad.push((ti, if form == "view" { "view_fails" } else { "cte_fails" }, format!("{} form fails ({}) but the derived-table form returns {}", form, r.brief(), val::fmt_bag(&bc))));
+                }
+            }
+        }
+        if ok {
+            o.agree += 1;
+        }
+    }
+}
+
+fn equiv_case(db: &Db, d: &Def, t: &Triple) -> Value {
+    json!({"part": "equivalence", "db": db.statements(), "create_view": create_view_sql(d), "view_query": t.a, "cte_query": t.b, "derived_query": t.c, "derived_query_sqlite": t.c_lite})
+}
+
+/// Fresh re-execution of an equivalence case from its JSON; returns a description per form.
+fn rerun_equiv(case: &Value) -> Result<[Out; 3], String> {
+    let mut db = Database::new();
+    for s in case["db"].as_array().ok_or("db")? {
+        let s = s.as_str().ok_or("db stmt")?;
+        let o = exec::exec(&mut db, s);
+        if !o.is_ok() {
+            return Err(format!("load `{}`: {}", s, o.brief()));
+        }
+    }
+    let cv = exec::exec(&mut db, case["create_view"].as_str().ok_or("create_view")?);
+    if !cv.is_ok() {
+        return Err(format!("CREATE VIEW rejected on replay: {}", cv.brief()));
+    }
+    let run = |k: &str| -> Out { exec::select(&db, case[k].as_str().unwrap_or("")) };
+    Ok([run("view_query"), run("cte_query"), run("derived_query")])
+}
+
+fn sqlite_says(case: &Value) -> String {
+    let c = match rusqlite::Connection::open_in_memory() {
+        Ok(c) => c,
+        Err(_) => return "?".into(),
+    };
+    for s in case["db"].as_array().map(|a| a.as_slice()).unwrap_or(&[]) {
+        if c.execute_batch(s.as_str().unwrap_or("")).is_err() {
+            return "?".into();
+        }
+    }
+    match dbs::lite_rows(&c, case["derived_query_sqlite"].as_str().unwrap_or("")) {
+        Ok(r) => val::fmt_bag(&val::bag(&r)),
+        Err(e) => format!("(SQLite: {})", vcore::util::trunc(&e, 80)),
+    }
+}
+
+// ------------------------------------------------------------------------------------------------
+// part 2: freshness
+
+const DML: &[&str] = &[
+    "INSERT INTO t VALUES (1, 1, 'b')",
+    "INSERT INTO t VALUES (NULL, 2, NULL)",
+    "INSERT INTO t VALUES (2, 0, 'ab'), (0, 1, 'a')",
+    "INSERT INTO u VALUES (1, 2)",
+    "UPDATE t SET b = b + 1",
+    "UPDATE t SET a = NULL WHERE a = 1",
+    "UPDATE u SET a = 0",
+    "DELETE FROM t WHERE a = 0",
+    "DELETE FROM t WHERE b IS NULL",
+    "DELETE FROM t",
+    "DELETE FROM u",
+    "TRUNCATE TABLE t",
+    "INSERT INTO t SELECT a, d, 'a' FROM u",
+];
+
+const FRESH_START: &[&[&str]] = &[&[], &["INSERT INTO t VALUES (0, 1, 'a'), (1, NULL, 'b')", "INSERT INTO u VALUES (0, 1)"], &["INSERT INTO t VALUES (NULL, NULL, NULL)", "INSERT INTO u VALUES (NULL, 1), (1, 1)"]];
+
+struct FreshOut {
+    states: u64,
+    reads: u64,
+    nonempty: u64,
+    dml_ok: u64,
+    dml_err: u64,
+    outcomes: HashSet<u64>,
+    bad: Vec<(String, Value, String)>, // (def name, case, what)
+}
+
+fn fresh_case(start: &[&str], create: &[String], hist: &[&str], view: &str, direct: &str) -> Value {
+    json!({"part": "freshness", "schema": dbs::SCHEMA, "start": start, "create_views": create, "history": hist, "view_read": view, "direct_read": direct})
+}
+
+fn check_fresh(db: &Database, reads: &[(String, String)]) -> Vec<(usize, String, Option<Vec<Vec<val::NV>>>)> {
+    // returns per read: (index, mismatch text or "", observed bag)
+    let mut out = vec![];
+    for (i, (view_sql, direct_sql)) in reads.iter().enumerate() {
+        let v = exec::select(db, view_sql);
+        let d = exec::select(db, direct_sql);
+        match (bag_of(&v), bag_of(&d)) {
+            (Some(a), Some(b)) if a == b => out.push((i, String::new(), Some(a))),
+            (Some(a), Some(b)) => out.push((i, format!("`{}` returns {} but the tables now give {}", view_sql, val::fmt_bag(&a), val::fmt_bag(&b)), Some(a))),
+            (None, Some(b)) => out.push((i, format!("`{}` fails ({}) but the defining query returns {}", view_sql, v.brief(), val::fmt_bag(&b)), None)),
+            (_, None) => out.push((i, String::new(), None)), // defining query itself fails: not a case
+        }
+    }
+    out
+}
+
+fn dml_alphabet(thorough: bool) -> Vec<&'static str> {
+    if thorough {
+        DML.to_vec()
+    } else {
+        DML.iter().copied().filter(|s| !["UPDATE u SET a = 0", "DELETE FROM t WHERE b IS NULL", "DELETE FROM u", "INSERT INTO t VALUES (2, 0, 'ab'), (0, 1, 'a')"].contains(s)).collect()
+    }
+}
+
+fn run_fresh(ds: &[Def], depth: usize, shard: usize, k: usize) -> FreshOut {
+    let alphabet = dml_alphabet(depth > 2);
+    let mut fo = FreshOut { states: 0, reads: 0, nonempty: 0, dml_ok: 0, dml_err: 0, outcomes: HashSet::new(), bad: vec![] };
+    // definitions over base tables only; a second-level view reads the first
+    let jobs: Vec<(usize, usize)> = (0..ds.len()).flat_map(|d| (0..FRESH_START.len()).map(move |s| (d, s))).enumerate().filter(|(j, _)| j % k == shard).map(|(_, x)| x).collect();
+    let results = vcore::util::par_map(&jobs, |_, (di, si)| {
+        let d = &ds[*di];
+        let start = FRESH_START[*si];
+        let mut local = FreshOut { states: 0, reads: 0, nonempty: 0, dml_ok: 0, dml_err: 0, outcomes: HashSet::new(), bad: vec![] };
+        let k1 = d.cols[0].0;
+        let create = vec![create_view_sql(d), format!("CREATE VIEW vw2 AS SELECT {} FROM {} WHERE {} IS NOT NULL", k1, VIEW, k1)];
+        let dq = def_for_derived(d);
+        let direct = dq.render(Dialect::Vibe);
+        let direct2 = sel(vec![item(col(k1))], From::Derived(Box::new(dq.clone()), "cv".into())).wher(E::IsNull(Box::new(col(k1)), true)).q().render(Dialect::Vibe);
+        let reads = vec![(format!("SELECT * FROM {}", VIEW), direct), ("SELECT * FROM vw2".to_string(), direct2)];
+        let mut base = Database::new();
+        for s in dbs::SCHEMA.iter().chain(start.iter()) {
+            exec::must(&mut base, s);
+        }
+        let mut views_ok = true;
+        for c in &create {
+            if !exec::exec(&mut base, c).is_ok() {
+                views_ok = false;
+            }
+        }
+        if !views_ok {
+            return local;
+        }
+        // depth-first over all histories of length <= depth
+        #[allow(clippy::too_many_arguments)]
+        fn rec(db: &Database, hist: &mut Vec<&'static str>, depth: usize, alphabet: &[&'static str], reads: &[(String, String)], local: &mut FreshOut, mk: &dyn Fn(&[&str], &str, &str) -> Value, dname: &str) {
+            local.states += 1;
+            for (i, what, bag) in check_fresh(db, reads) {
+                local.reads += 1;
+                if let Some(b) = &bag {
+                    if !b.is_empty() {
+                        local.nonempty += 1;
+                    }
+                    local.outcomes.insert(vcore::util::hash64(format!("{}:{}:{:?}", dname, i, b).as_bytes()));
+                }
+                if !what.is_empty() {
+                    local.bad.push((dname.to_string(), mk(hist, &reads[i].0, &reads[i].1), what));
+                }
+            }
+            if hist.len() == depth {
+                return;
+            }
+            for op in alphabet {
+                let mut next = db.clone();
+                let o = exec::exec(&mut next, op);
+                if o.is_ok() {
+                    local.dml_ok += 1;
+                } else {
+                    local.dml_err += 1;
+                }
+                hist.push(op);
+                rec(&next, hist, depth, alphabet, reads, local, mk, dname);
+                hist.pop();
+            }
+        }
+        let mk = |h: &[&str], v: &str, dr: &str| fresh_case(start, &create, h, v, dr);
+        rec(&base, &mut vec![], depth, &alphabet, &reads, &mut local, &mk, d.name);
+        local
+    });
+    for r in results {
+        fo.states += r.states;
+        fo.reads += r.reads;
+        fo.nonempty += r.nonempty;
+        fo.dml_ok += r.dml_ok;
+        fo.dml_err += r.dml_err;
+        fo.outcomes.extend(r.outcomes);
+        fo.bad.extend(r.bad);
+    }
+    fo
+}
+
+fn rerun_fresh(case: &Value, verbose: bool) -> Result<(Out, Out), String> {
+    let mut db = Database::new();
+    let list = |k: &str| -> Vec<String> { case[k].as_array().map(|a| a.iter().filter_map(|x| x.as_str().map(|s| s.to_string())).collect()).unwrap_or_default() };
+    for s in list("schema").iter().chain(list("start").iter()).chain(list("create_views").iter()) {
+        let o = exec::exec(&mut db, s);
+        if !o.is_ok() {
+            return Err(format!("setup `{}`: {}", s, o.brief()));
+        }
+    }
+    for s in list("history") {
+        let o = exec::exec(&mut db, &s);
+        if verbose {
+            println!("{}\n   => {}", s, o.brief());
+        }
+    }
+    Ok((exec::select(&db, case["view_read"].as_str().unwrap_or("")), exec::select(&db, case["direct_read"].as_str().unwrap_or(""))))
+}
+
+fn hist_kinds(case: &Value) -> String {
+    let mut k: Vec<String> = case["history"]
+        .as_array()
+        .map(|a| {
+            a.iter()
+                .filter_map(|x| x.as_str())
+                .map(|s| {
+                    let w: Vec<&str> = s.split_whitespace().collect();
+                    if s.starts_with("INSERT INTO t SELECT") {
+                        "INSERT-SELECT".to_string()
+                    } else if w[0] == "DELETE" && w.len() == 3 {
+                        "DELETE-all".to_string()
+                    } else {
+                        w[0].to_string()
+                    }
+                })
+                .collect()
+        })
+        .unwrap_or_default();
+    k.dedup();
+    k.join("+")
+}
+
+fn fresh_defs() -> Vec<Def> {
+    defs().into_iter().filter(|d| ["proj", "filter", "alias", "collist", "expr", "group", "agg", "distinct", "join", "leftjoin", "union", "subq", "nullcol"].contains(&d.name)).collect()
+}
+
+fn spaces(tier: &str) -> (Vec<Def>, Vec<Triple>, DbSpace, Vec<Db>, bool) {
+    let thorough = tier == "thorough";
+    let ds = defs();
+    let ts = triples(&ds, thorough);
+    let space = db_space(thorough);
+    let mut dbsv = space.all();
+    let mut exhaustive = true;
+    if let Some(n) = std::env::var("VERIF_C32_MAXDBS").ok().and_then(|s| s.parse::<usize>().ok()) {
+        if n < dbsv.len() {
+            dbsv.truncate(n);
+            exhaustive = false;
+        }
+    }
+    (ds, ts, space, dbsv, exhaustive)
+}
+
+/// `sqlspacecheck shard C32 <tier> <i> <k>`
+pub fn shard_main(tier: &str, i: usize, k: usize) -> i32 {
+    let (ds, ts, _space, dbsv, _) = spaces(tier);
+    let mut tot = Out1::default();
+    let mut bad: Vec<Value> = vec![];
+    let mut per_sig: std::collections::HashMap<(usize, &'static str), usize> = Default::default();
+    let mut bad_total = 0u64;
+    for (idx, db) in dbsv.iter().enumerate() {
+        if idx % k != i {
+            continue;
+        }
+        let o = run_equiv_db(db, &ds, &ts);
+        tot.cases += o.cases;
+        tot.agree += o.agree;
+        tot.nonempty += o.nonempty;
+        tot.view_rejected += o.view_rejected;
+        tot.derived_err += o.derived_err;
+        tot.all_err += o.all_err;
+        tot.outcomes.extend(o.outcomes);
+        for (ti, m) in o.derived_rejected {
+            if !tot.derived_rejected.iter().any(|(i, _)| *i == ti) {
+                tot.derived_rejected.push((ti, m));
+            }
+        }
+        for (ti, kind, what) in o.bad {
+            bad_total += 1;
+            let c = per_sig.entry((ti, kind)).or_insert(0);
+            *c += 1;
+            if *c <= 2 {
+                bad.push(json!([idx, ti, kind, what]));
+            }
+        }
+    }
+    let depth = if tier == "thorough" { 3 } else { 2 };
+    let fo = run_fresh(&fresh_defs(), depth, i, k);
+    println!(
+        "{}",
+        json!({
+            "cases": tot.cases, "agree": tot.agree, "nonempty": tot.nonempty, "view_rejected": tot.view_rejected, "derived_err": tot.derived_err, "all_err": tot.all_err,
+            "outcomes": tot.outcomes, "bad": bad, "bad_total": bad_total,
+            "derived_rejected": tot.derived_rejected.iter().map(|(i, m)| json!([i, m])).collect::<Vec<_>>(),
+            "fresh": {"states": fo.states, "reads": fo.reads, "nonempty": fo.nonempty, "dml_ok": fo.dml_ok, "dml_err": fo.dml_err,
+                      "outcomes": fo.outcomes.iter().collect::<Vec<_>>(),
+                      "bad": fo.bad.iter().map(|(d, c, w)| json!([d, c, w])).collect::<Vec<_>>()},
+        })
+    );
+    0
+}
+
+fn u(v: &Value) -> u64 {
+    v.as_u64().unwrap_or(0)
+}
+
+/// Definitions whose defining query, executed directly, does not answer the same bag every time on some
+/// database of a probe set (vibesql's hash maps are randomly seeded; e.g. an unqualified column that
+/// the semi-join rewrite makes ambiguous). Comparing two executions of such a query says nothing about
+/// views, so its cases are skipped (and counted) for this run.
+fn unstable_definitions(ds: &[Def], dbsv: &[Db]) -> Vec<&'static str> {
+    let probe: Vec<&Db> = dbsv.iter().rev().step_by((dbsv.len() / 12).max(1)).take(12).collect();
+    let mut out = vec![];
+    for d in ds {
+        let sql = def_for_derived(d).render(Dialect::Vibe);
+        let mut unstable = false;
+        'dbs: for db in &probe {
+            let vdb = dbs::vibe_db(db);
+            let first = bag_of(&exec::select(&vdb, &sql));
+            for _ in 0..12 {
+                if bag_of(&exec::select(&vdb, &sql)) != first {
+                    unstable = true;
+                    break 'dbs;
+                }
+            }
+        }
+        if unstable {
+            out.push(d.name);
+        }
+    }
+    out
+}
+
+/// The defining (derived-table / direct) form must answer the same every time, otherwise comparing two
+/// executions of it says nothing about views (engine hash maps are randomly seeded).
+fn stable<F: Fn() -> Option<Vec<Vec<val::NV>>>>(f: F) -> bool {
+    let first = f();
+    (0..5).all(|_| f() == first)
+}
+
+pub fn run(tier: &str) -> i32 {
+    let mut rep = Report::new("C32", tier, "model_checking");
+    let thorough = tier == "thorough";
+    let start = Instant::now();
+    let (ds, ts, space, dbsv, exhaustive) = spaces(tier);
+    let unparsed: Vec<&Triple> = ts.iter().filter(|t| t.stmts.iter().any(|s| s.is_none())).collect();
+    let k = crate::shard::n_shards();
+    let docs = match crate::shard::run_shards("C32", tier, k) {
+        Ok(d) => d,
+        Err(e) => {
+            rep.machinery_error(format!("worker processes: {}", e));
+            rep.set("exhaustive", json!(false));
+            rep.set("states", json!(0));
+            rep.set("transitions", json!(0));
+            rep.set("samples", json!([]));
+            return rep.finish();
+        }
+    };
+    let explore_s = start.elapsed().as_secs_f64();
+
+    let mut tot = Out1::default();
+    let mut outcomes: HashSet<u64> = HashSet::new();
+    let mut bad: Vec<(usize, usize, String, String)> = vec![];
+    let mut bad_total = 0u64;
+    let mut fo = FreshOut { states: 0, reads: 0, nonempty: 0, dml_ok: 0, dml_err: 0, outcomes: HashSet::new(), bad: vec![] };
+    for d in &docs {
+        tot.cases += u(&d["cases"]);
+        tot.agree += u(&d["agree"]);
+        tot.nonempty += u(&d["nonempty"]);
+        tot.view_rejected += u(&d["view_rejected"]);
+        tot.derived_err += u(&d["derived_err"]);
+        tot.all_err += u(&d["all_err"]);
+        bad_total += u(&d["bad_total"]);
+        if let Some(a) = d["outcomes"].as_array() {
+            outcomes.extend(a.iter().map(u));
+        }
+        for b in d["derived_rejected"].as_array().map(|a| a.as_slice()).unwrap_or(&[]) {
+            let ti = u(&b[0]) as usize;
+            if !tot.derived_rejected.iter().any(|(i, _)| *i == ti) {
+                tot.derived_rejected.push((ti, b[1].as_str().unwrap_or("").to_string()));
+            }
+        }
+        for b in d["bad"].as_array().map(|a| a.as_slice()).unwrap_or(&[]) {
+            bad.push((u(&b[0]) as usize, u(&b[1]) as usize, b[2].as_str().unwrap_or("").to_string(), b[3].as_str().unwrap_or("").to_string()));
+        }
+        let f = &d["fresh"];
+        fo.states += u(&f["states"]);
+        fo.reads += u(&f["reads"]);
+        fo.nonempty += u(&f["nonempty"]);
+        fo.dml_ok += u(&f["dml_ok"]);
+        fo.dml_err += u(&f["dml_err"]);
+        if let Some(a) = f["outcomes"].as_array() {
+            fo.outcomes.extend(a.iter().map(u));
+        }
+        for b in f["bad"].as_array().map(|a| a.as_slice()).unwrap_or(&[]) {
+            fo.bad.push((b[0].as_str().unwrap_or("").to_string(), b[1].clone(), b[2].as_str().unwrap_or("").to_string()));
+        }
+    }
+
+    bad.sort_by_key(|(d, t, ..)| (*d, *t));
+    let unstable = unstable_definitions(&ds, &dbsv);
+    if !unstable.is_empty() {
+        println!("C32 definitions whose own result varies between executions (their cases are skipped): {:?}", unstable);
+    }
+    rep.set("definitions_unstable_in_this_run", json!(unstable));
+    let mut confirmed: HashSet<String> = HashSet::new();
+    let mut unstable_defs = 0u64;
+    let mut by_class: std::collections::BTreeMap<&str, u64> = Default::default();
+    for (di, ti, kind, what) in &bad {
+        let (Some(db), Some(t)) = (dbsv.get(*di), ts.get(*ti)) else {
+            rep.machinery_error(format!("C32: worker reported an unknown case ({}, {})", di, ti));
+            continue;
+        };
+        let d = &ds[t.def];
+        if unstable.contains(&d.name) {
+            unstable_defs += 1;
+            continue;
+        }
+        let sig = vec![("part", "equivalence".to_string()), ("kind", kind.clone()), ("definition", d.name.to_string()), ("definition_class", d.class.to_string()), ("outer", t.outer.to_string())];
+        let key = format!("{:?}", sig);
+        let case = equiv_case(db, d, t);
+        if confirmed.contains(&key) {
+            rep.violation(&sig, String::new(), Value::Null);
+            continue;
+        }
+        if !stable(|| rerun_equiv(&case).ok().and_then(|r| bag_of(&r[2]))) {
+            unstable_defs += 1;
+            continue;
+        }
+        // R3: fresh re-executions must show the same kind of difference (at least twice)
+        let mut repro = 0;
+        for _ in 0..8 {
+            if let Ok([ra, rb, rc]) = rerun_equiv(&case) {
+                let r = if kind.starts_with("view") { &ra } else { &rb };
+                let differs = match (bag_of(r), bag_of(&rc)) {
+                    (Some(x), Some(y)) => x != y && kind.ends_with("differs"),
+                    (None, Some(_)) => kind.ends_with("fails"),
+                    _ => false,
+                };
+                if differs {
+                    repro += 1;
+                }
+            }
+            if repro >= 2 {
+                break;
+            }
+        }
+        if repro < 2 {
+            rep.machinery_error(format!("C32 equivalence: `{}` / `{}` on {:?}: {} not reproducible", t.a, t.c, db.inserts(), what));
+            continue;
+        }
+        confirmed.insert(key);
+        rep.violation(
+            &sig,
+            format!("{} ; {} ; view: `{}` ; cte: `{}` ; derived: `{}` on {} — {} (SQLite on the derived form: {})", create_view_sql(d), kind, t.a, t.b, t.c, db.inserts().join("; "), what, sqlite_says(&case)),
+            case,
+        );
+    }
+    for t in &ts {
+        *by_class.entry(ds[t.def].class).or_insert(0) += dbsv.len() as u64;
+    }
+    println!(
+        "C32 equivalence: definitions={} outer_shapes={} triples={} dbs={} cases={} agree={} nonempty={} create_view_rejected={} derived_form_fails={} all_forms_fail={} failing={} unstable_definition_skipped={}",
+        ds.len(),
+        ts.iter().map(|t| t.outer).collect::<HashSet<_>>().len(),
+        ts.len(),
+        dbsv.len(),
+        tot.cases,
+        tot.agree,
+        tot.nonempty,
+        tot.view_rejected,
+        tot.derived_err,
+        tot.all_err,
+        bad_total,
+        unstable_defs
+    );
+
+    // part 2
+    let fresh_defs = fresh_defs();
+    let depth = if thorough { 3 } else { 2 };
+    let mut fconfirmed: HashSet<String> = HashSet::new();
+    let mut fbad = std::mem::take(&mut fo.bad);
+    fbad.sort_by_key(|(_, c, _)| c["history"].as_array().map(|a| a.len()).unwrap_or(0));
+    let fresh_failing = fbad.len();
+    let mut fresh_unstable = 0u64;
+    for (dname, case, what) in fbad {
+        if unstable.iter().any(|u| *u == dname) {
+            fresh_unstable += 1;
+            continue;
+        }
+        let reader = if case["view_read"].as_str().unwrap_or("").contains("vw2") { "view_over_view" } else { "view" };
+        let sig = vec![("part", "freshness".to_string()), ("definition", dname.clone()), ("reader", reader.to_string()), ("history", hist_kinds(&case))];
+        let key = format!("{:?}", sig);
+        if fconfirmed.contains(&key) {
+            rep.violation(&sig, String::new(), Value::Null);
+            continue;
+        }
+        if !stable(|| rerun_fresh(&case, false).ok().and_then(|(_, d)| bag_of(&d))) {
+            fresh_unstable += 1;
+            continue;
+        }
+        let mut repro = 0;
+        for _ in 0..8 {
+            if let Ok((v, d)) = rerun_fresh(&case, false) {
+                if let Some(bd) = bag_of(&d) {
+                    if bag_of(&v).map(|bv| bv != bd).unwrap_or(true) {
+                        repro += 1;
+                    }
+                }
+            }
+            if repro >= 2 {
+                break;
+            }
+        }
+        if repro < 2 {
+            rep.machinery_error(format!("C32 freshness: {} not reproducible: {}", case, what));
+            continue;
+        }
+        fconfirmed.insert(key);
+        rep.violation(&sig, format!("after {} + {}: {}", case["start"], case["history"], what), case);
+    }
+    println!(
+        "C32 freshness: definitions={} start_states={} history_depth<={} alphabet={} states={} view_reads={} nonempty={} dml ok/err={}/{} distinct_view_contents={} failing={} unstable_definition_skipped={}",
+        fresh_defs.len(),
+        FRESH_START.len(),
+        depth,
+        dml_alphabet(thorough).len(),
+        fo.states,
+        fo.reads,
+        fo.nonempty,
+        fo.dml_ok,
+        fo.dml_err,
+        fo.outcomes.len(),
+        fresh_failing,
+        fresh_unstable
+    );
+    println!("C32 explored by {} worker processes in {:.1}s wall / {:.0} CPU-s, failing cases confirmed by {:.1}s", k, explore_s, crate::shard::children_cpu_s(), start.elapsed().as_secs_f64());
+
+    tot.derived_rejected.sort();
+    rep.set(
+        "derived_forms_vibesql_rejects",
+        json!(tot.derived_rejected.iter().filter_map(|(i, m)| ts.get(*i).map(|t| json!({"definition": ds[t.def].name, "outer": t.outer, "derived": t.c, "error": vcore::util::trunc(m, 160)}))).collect::<Vec<_>>()),
+    );
+    if !unparsed.is_empty() {
+        rep.set("forms_rejected_by_parser", json!(unparsed.iter().take(10).map(|t| json!([t.a, t.b, t.c])).collect::<Vec<_>>()));
+    }
+    rep.set("worker_processes", json!(k));
+    rep.set("worker_cpu_seconds", json!(crate::shard::children_cpu_s()));
+    rep.set("states", json!(dbsv.len() as u64 + fo.states));
+    rep.set("transitions", json!(tot.cases * 3 + fo.reads * 2 + fo.dml_ok + fo.dml_err));
+    rep.set("evaluations", json!(tot.cases + fo.reads));
+    rep.set("distinct_nontrivial", json!(outcomes.len() + fo.outcomes.len()));
+    rep.set(
+        "equivalence",
+        json!({
+            "definitions": ds.iter().map(|d| d.name).collect::<Vec<_>>(), "triples": ts.len(), "databases": dbsv.len(), "database_space": space.describe(),
+            "cases": tot.cases, "agree": tot.agree, "nonempty_derived_result": tot.nonempty, "create_view_rejected_not_a_case": tot.view_rejected,
+            "derived_form_fails_not_a_case": tot.derived_err, "all_forms_fail_not_a_case": tot.all_err, "distinct_outcomes": outcomes.len(),
+            "failing_cases": bad_total, "skipped_because_the_definition_itself_answers_differently_between_runs": unstable_defs,
+            "cases_by_definition_class": by_class,
+            "reach": {"view branch of execute_table_scan (every view-form execution)": tot.cases, "execute_ctes (every cte-form execution)": tot.cases},
+        }),
+    );
+    rep.set(
+        "freshness",
+        json!({"definitions": fresh_defs.iter().map(|d| d.name).collect::<Vec<_>>(), "start_states": FRESH_START.len(), "history_depth": depth, "alphabet": dml_alphabet(thorough),
+               "states": fo.states, "view_reads": fo.reads, "nonempty_reads": fo.nonempty, "dml_ok": fo.dml_ok, "dml_err": fo.dml_err, "distinct_view_contents": fo.outcomes.len(),
+               "failing_reads": fresh_failing, "skipped_because_the_definition_itself_answers_differently_between_runs": fresh_unstable}),
+    );
+    rep.set("exhaustive", json!(exhaustive));
+    rep.set("rule", json!("equivalence: every (database, definition, outer shape); a case is non-trivial/distinct by (triple, normalised derived-table result). freshness: every DML history of length <= depth from each start state, view re-read after every step; distinct by (definition, reader, view contents)"));
+    let sample: Vec<Value> = ts.iter().step_by((ts.len() / 6).max(1)).take(6).map(|t| json!({"create_view": create_view_sql(&ds[t.def]), "view_form": t.a, "cte_form": t.b, "derived_form": t.c})).collect();
+    rep.set("samples", json!(sample));
+    rep.assume("the derived-table form is taken as the meaning of the definition (its own agreement with SQLite is C01's business; SQLite's answer is quoted in reports for orientation only)");
+    rep.finish()
+}
+
+pub fn replay(case: &Value) -> i32 {
+    match case["part"].as_str() {
+        Some("equivalence") => {
+            for s in case["db"].as_array().map(|a| a.as_slice()).unwrap_or(&[]) {
+                println!("{};", s.as_str().unwrap_or(""));
+            }
+            println!("{};", case["create_view"].as_str().unwrap_or(""));
+            match rerun_equiv(case) {
+                Ok([a, b, c]) => {
+                    println!("view   > {}\n   => {}", case["view_query"].as_str().unwrap_or(""), a.brief());
+                    println!("cte    > {}\n   => {}", case["cte_query"].as_str().unwrap_or(""), b.brief());
+                    println!("derived> {}\n   => {}", case["derived_query"].as_str().unwrap_or(""), c.brief());
+                    println!("sqlite (derived form): {}", sqlite_says(case));
+                    let bc = bag_of(&c);
+                    if bc.is_some() && (bag_of(&a) != bc || bag_of(&b) != bc) {
+                        println!("verdict: MISMATCH");
+                        1
+                    } else {
+                        println!("verdict: agree (or derived form not executable)");
+                        0
+                    }
+                }
+                Err(e) => {
+                    eprintln!("MACHINERY-ERROR {}", e);
+                    2
+                }
+            }
+        }
+        Some("freshness") => match rerun_fresh(case, true) {
+            Ok((v, d)) => {
+                println!("view  > {}\n   => {}", case["view_read"].as_str().unwrap_or(""), v.brief());
+                println!("direct> {}\n   => {}", case["direct_read"].as_str().unwrap_or(""), d.brief());
+                match (bag_of(&v), bag_of(&d)) {
+                    (Some(a), Some(b)) if a == b => {
+                        println!("verdict: agree");
+                        0
+                    }
+                    (_, None) => {
+                        println!("verdict: defining query not executable (not a case)");
+                        0
+                    }
+                    _ => {
+                        println!("verdict: MISMATCH");
+                        1
+                    }
+                }
+            }
+            Err(e) => {
+                eprintln!("MACHINERY-ERROR {}", e);
+                2
+            }
+        },
+        _ => {
+            eprintln!("bad C32 case");
+            2
+        }
+    }
 }
